@@ -314,6 +314,7 @@ class FnDirective:
         self.loops = {}     # k -> lines
         self.rws = []       # (rule, n, from, to, regex?)
         self.ins = []       # (where, k, pattern, lines)
+        self.attrs = []     # verifier attributes placed before the signature (rule A5)
 
 
 class Region:
@@ -407,7 +408,10 @@ def render_fn(d, log):
     for off, txt in sorted(inserts, key=lambda x: -x[0]):
         body = body[:off] + txt + body[off:]
     contract = '\n'.join(d.contract)
-    out = sig.rstrip() + '\n' + (contract + '\n' if contract else '') + body
+    for a in d.attrs:
+        if 'external_body' in a or 'external' in a.replace('external_', ''):
+            raise UnitError(f'{d.qual}: external attributes are never added to an extracted function')
+    out = ('\n'.join(d.attrs) + '\n' if d.attrs else '') + sig.rstrip() + '\n' + (contract + '\n' if contract else '') + body
     meta = dict(src_file=d.relpath, src_start=src_start, src_end=src_end, sha256=sha,
                 qual=d.qual, props=d.opts.get('props', ''), dropped_attrs=dropped_attrs,
                 emitted_name=d.opts.get('name') or it.name)
@@ -543,6 +547,8 @@ def generate(unit_path):
                         d.loops[mode[1]].append(rest)
                     elif mode[0] == 'ins':
                         cur['lines'].append(rest)
+                    elif mode[0] == 'attr':
+                        d.attrs.append(rest)
                     else:
                         raise UnitError(f'{unit_path}:{i + 1}: unexpected payload')
                     i += 1
@@ -564,6 +570,8 @@ def generate(unit_path):
                     cur = dict(rule=w2[1], n=(None if w2[2] == '*' else int(w2[2])), **{'from': [], 'to': []}, re=(w2[0] == 'rwx'))
                     d.rws.append(cur)
                     mode = ('rw', None)
+                elif w2[0] == 'attr':
+                    mode = ('attr', None)
                 elif w2[0] == 'ins':
                     cur = dict(where=w2[1], k=int(w2[2]), **{'from': []}, lines=[])
                     d.ins.append(cur)
